@@ -238,7 +238,7 @@ def iterpath(obj, path=None):
             path.append(name)
             yield (path, value)
 
-            if isinstance(value, (collections.abc.Mapping, list)):
+            if isinstance(value, (collections.abc.Mapping, list, tuple)):
                 stack.append(_iterpath_children(value))
                 break
 
